@@ -5,6 +5,9 @@
 -/
 import FinProto.Wire
 import FinProto.Gen
+import FinProto.Pinned
+import FinProto.Spec
+import FinProto.Registry
 open FinProto FinProto.Wire
 
 def showOutcome (f : α → String) : Outcome α → String
@@ -13,6 +16,33 @@ def showOutcome (f : α → String) : Outcome α → String
   | .panic => "panic"
 
 def env : Env := Gen.env
+
+def parseCalls : List String → Option (List Reg.Call)
+  | [] => some []
+  | "R" :: n :: i :: rest => do
+    let n ← n.toNat?
+    let i ← i.toNat?
+    let cs ← parseCalls rest
+    pure (.reg n i :: cs)
+  | "G" :: n :: rest => do
+    let n ← n.toNat?
+    let cs ← parseCalls rest
+    pure (.get n :: cs)
+  | "D" :: n :: rest => do
+    let n ← n.toNat?
+    let cs ← parseCalls rest
+    pure (.remove n :: cs)
+  | "C" :: rest => do
+    let cs ← parseCalls rest
+    pure (.clear :: cs)
+  | _ => none
+
+def showRes : Reg.Res → String
+  | .bool true => " t"
+  | .bool false => " f"
+  | .svc none => " none"
+  | .svc (some i) => s!" s{i}"
+  | .unit => " u"
 
 def runLine (toks : List String) : String :=
   match toks with
@@ -27,6 +57,18 @@ def runLine (toks : List String) : String :=
     match ty.toNat?, parseHex hex with
     | some ty, some bs =>
       showOutcome (fun (p : Val × Bytes) => s!"{bs.length - p.2.length} | " ++ showVal p.1) (decode env ty bs)
+    | _, _ => "bad-case"
+  | "penc" :: _ :: rest =>
+    match pVal rest with
+    | some (v, []) =>
+      match Spec.render Pinned.env v with
+      | some bs => "ok | " ++ hexOf bs
+      | none => "fail"
+    | _ => "bad-case"
+  | ["pdec", ty, hex] =>
+    match ty.toNat?, parseHex hex with
+    | some ty, some bs =>
+      showOutcome (fun (p : Val × Bytes) => s!"{bs.length - p.2.length} | " ++ showVal p.1) (decode Pinned.env ty bs)
     | _, _ => "bad-case"
   | "wop" :: rest =>
     match pOp rest with
@@ -54,6 +96,10 @@ def runLine (toks : List String) : String :=
     match pAlg [alg], n.toNat?, b.toNat? with
     | some (a, _), some n, some b => s!"ok | {cksNat a (List.replicate n (UInt8.ofNat b))}"
     | _, _, _ => "bad-case"
+  | "reg" :: rest =>
+    match parseCalls rest with
+    | some cs => "ok |" ++ String.join ((Reg.runSpec [] cs).2.map showRes)
+    | none => "bad-case"
   | ["zero", ty] =>
     match ty.toNat? with
     | some ty => "ok | " ++ showVal (zeroTy env env.fuel ty)
